@@ -418,17 +418,9 @@ def initial_sympify_merge_contract():
             return LoopSpec(inv, havoc_types={"all_fun": T.list(T.opt(T.label))})
         return None
 
-    def slice_lemma(S, st):
-        """ghost lemma at the head of the exchange loop: the slice of root r lies inside 0..N (instances of the facts about LO)"""
-        v = S.var("r")
-        if "__i" not in st.env or not isinstance(v, VInt):
-            return
-        r = v.t
-        S.prove("slice of root r: 0 <= LO(r) <= LO(r+1) <= LO(size)", z3.And(0 <= LO(r), LO(r) <= LO(r + 1), LO(r + 1) <= LO(P), LENF(r) == LO(r + 1) - LO(r)))
-
     c = Contract("initial_sympify", {"str_fun": lambda eng, st: st.alloc(HSeq(LENF(R), lambda k: VLabel(STR(R, k)), etype=T.label))},
                  requires=requires, ensures=ensures, setup=setup, region=_isym_region, raises=lambda S, a, e: z3.BoolVal(False),
-                 hooks={"start_idx": cumsum_lemma, "r": slice_lemma})
+                 hooks={"start_idx": cumsum_lemma})
     c.loop_select = loop_select
     c.region_name = "all-to-all exchange of the printed strings"
     return c
